@@ -166,8 +166,9 @@ def _run_one_cli(c, timeout):
                 with open(p, 'wb') as f:
                     f.write(content)
         try:
-            p = subprocess.run([BORNO] + c.args, input=c.stdin, capture_output=True, cwd=d, timeout=timeout,
-                               env={'PATH': '/usr/bin:/bin', 'GOMEMLIMIT': '1GiB'})
+            exe = BORNO + '_cover' if COVER['dir'] and os.path.exists(BORNO + '_cover') else BORNO
+            p = subprocess.run([exe] + c.args, input=c.stdin, capture_output=True, cwd=d, timeout=timeout,
+                               env=cover_env({'PATH': '/usr/bin:/bin', 'GOMEMLIMIT': '1GiB'}))
             c.out, c.err, c.status = p.stdout, p.stderr, p.returncode
         except subprocess.TimeoutExpired as e:
             c.out, c.err, c.status, c.timed_out = e.stdout or b'', e.stderr or b'', None, True
